@@ -683,6 +683,24 @@ def gen():
         T.fail(VOL, conn, "unexpected base classes of the connectivity chain: %s / %s" % (bases, sbases))
     out_parts += [("volume.VolumeMesh._Connectivity", T.sha(vsrc, conn)), ("surface._Connectivity.__init__", T.sha(ssrc, T.find_def(sconn, "__init__", SURF))),
                   ("linear._Connectivity.__init__", T.sha(lsrc, T.find_def(lconn, "__init__", LIN)))]
+    # clear() resets every cache attribute that __init__ creates, each exactly once, after super().clear()
+    for cls, rel in ((conn, VOL), (sconn, SURF), (lconn, LIN)):
+        own = init_fields(cls, rel)
+        own = [f for f in own if f != "mesh"]
+        clr = T.find_def(cls, "clear", rel)
+        reset = []
+        for st in T.body_nodoc(clr):
+            tg = st.targets[0] if isinstance(st, ast.Assign) and len(st.targets) == 1 else (st.target if isinstance(st, ast.AnnAssign) else None)
+            if tg is not None and isinstance(st.value, ast.Constant) and st.value.value is None and (T.dotted(tg) or "").startswith("self."):
+                reset.append(T.dotted(tg)[5:])
+            elif isinstance(st, ast.Expr) and ast.unparse(st.value) == "super().clear()" and cls.bases:
+                continue
+            else:
+                T.fail(rel, st, "unexpected statement in clear()")
+        if sorted(reset) != sorted(own):
+            T.fail(rel, clr, "clear() does not reset every cache attribute of __init__ exactly once: resets %s, __init__ creates %s" % (sorted(reset), sorted(own)))
+        if cls.bases and not any(isinstance(st, ast.Expr) and ast.unparse(st.value) == "super().clear()" for st in T.body_nodoc(clr)):
+            T.fail(rel, clr, "clear() does not call super().clear()")
     fields, guards, assigns = cache_tables([conn, sconn, lconn], CONN_ACCESSORS, VOL)
     body.append("(* lazy caches of VolumeMesh._Connectivity (with the __init__ chain surface.py / linear.py) *)\n")
     body.append(emit_cache("conn", fields, guards, assigns))
